@@ -43,7 +43,7 @@ for m in metas:
     d = json.load(open(m))
     sig = "; ".join((d.get("checks", {}).get(d["property"], {}).get("signatures") or [])[:2]).replace("|", "\\|")
     out.append("| %s | %s | %s | %s | %s | %s |" % (d["name"], d["property"], "yes" if d.get("confirmed_valid_seed") else "NO (%s)" % d.get("invalid_reason", "see meta.json"),
-                                             ", ".join(d.get("detected_by", [])) or ("none: behaviour-preserving since repair %s" % d["neutralised_by_fix"]["commit"] if d.get("neutralised_by_fix") else "**none**"), sig[:160], ("no - added: " + STR[d["name"]]) if d["name"] in STR else "yes"))
+                                             ", ".join(d.get("detected_by", [])) or ("none: behaviour-preserving since repair %s" % d["neutralised_by_fix"]["commit"] if d.get("neutralised_by_fix") else ("none: not claimed (see meta.json)" if d.get("not_claimed") else "**none**")), sig[:160], ("no - added: " + STR[d["name"]]) if d["name"] in STR else "yes"))
 out += ["", "<!-- AUTOGEN-END -->"]
 p = os.path.join(V, "DESIGN.md")
 s = open(p).read()
